@@ -26,7 +26,7 @@ def gen_history(rng, nsteps):
     mx = {"none": 0.0, "pow2": interval * 2.0 ** -rng.randint(0, 12), "generic": interval * rng.random(),
           "belowmin": mn * 0.5}[mk2]
     ops.append("new %d %d %d %d" % (vlib.f2bits(start), vlib.f2bits(end), vlib.f2bits(mn), vlib.f2bits(mx)))
-    pat = rng.choice(["const", "grow", "shrink", "wild", "pow2", "belowmin", "zero", "big"])
+    pat = rng.choice(["const", "grow", "shrink", "wild", "pow2", "nearpow2", "nearpow2", "belowmin", "zero", "big"])
     base = interval * 10 ** -rng.uniform(0, 4)
     for i in range(nsteps):
         if pat == "const":
@@ -39,6 +39,17 @@ def gen_history(rng, nsteps):
             r = interval * 10 ** -rng.uniform(0, 9)
         elif pat == "pow2":
             r = interval * 2.0 ** -rng.randint(0, 40)      # exact ties of the comparison
+        elif pat == "nearpow2":
+            # a few ulps / a relative 1e-15 .. 1e-9 above or below a power-of-two fraction of the interval:
+            # the rounding of the request must go DOWN to the next power of two, never up
+            import math
+            r = interval * 2.0 ** -rng.randint(0, 40)
+            how = rng.choice(["ulp-", "ulp-", "ulp+", "rel-", "rel+"])
+            if how.startswith("ulp"):
+                for _ in range(rng.choice([1, 1, 2, 5])):
+                    r = math.nextafter(r, 0.0 if how == "ulp-" else math.inf)
+            else:
+                r = r * (1.0 - 10 ** -rng.uniform(9, 15)) if how == "rel-" else r * (1.0 + 10 ** -rng.uniform(9, 15))
         elif pat == "belowmin":
             r = base if i < nsteps // 2 else mn * rng.choice([0.3, 0.999, 1.0])
         elif pat == "zero":
